@@ -118,6 +118,19 @@ def run(tier):
                 C.violation(dict(key, kind="print"), "{{ v }} for a %s prints %r, the data is %r" % (tn, rd.get("out") if rd.get("ok") else rd.get("msg"), want), {"vector": v, "got": x})
         if not x.get("reser"):
             C.violation(dict(key, kind="reserialise"), "re-serialising the template value of a %s gives a different value" % tn, {"vector": v, "got": x})
+        if "keys" in x and v["val"].get("k") == "map" and not v["refused"]:
+            def ktext(kv):
+                c = conc(kv)
+                return c["v"] if c["k"] in ("int", "char", "str") else ("true" if c.get("v") else "false") if c["k"] == "bool" else "?"
+            want = sorted(ktext(p_[0]) for p_ in v["val"]["v"])
+            kk = x["keys"]
+            ok_ = kk.get("ok")
+            if ok_:
+                loop_, n_, pairs_ = kk["out"].split("|")
+                seen = [e_.split("\x1f") for e_ in loop_.split("\x1e")[:-1]]
+                ok_ = sorted(e_[0] for e_ in seen) == want and all(e_[1] == "Y" for e_ in seen) and n_ == str(len(want)) and sorted(pairs_.split("\x1e")[:-1]) == want
+            if not ok_ and "?" not in want:
+                C.violation(dict(key, kind="map-keys"), "the keys of a %s as a template sees them (for k, v / v[k] / keys / pairs): %r, the data has %s" % (tn, kk.get("out", kk.get("msg")), want), {"vector": v, "got": x})
         if x.get("ctx_equiv") is False:
             C.violation(dict(key, kind="context-paths"), "from_serialize / insert / insert_value disagree for a %s: %s" % (tn, x.get("ctx_out", "")[:200]), {"vector": v, "got": x})
     # maps print in sorted key order, whatever the insertion order
